@@ -170,7 +170,7 @@ func TestC11OverlappingRounds(t *testing.T) {
 		if !st.Servers[glow.PublicKey(X.Key.Pub)].Banned {
 			fail("the ban of %x was lost", X.Key.Pub[:3])
 		}
-		if !c.VerifTryLock() {
+		if !clientLockFree(c) {
 			fail("client mutex held after both rounds returned")
 		}
 		if ps := client.VerifPanics(); len(ps) > 0 {
